@@ -97,7 +97,7 @@ func checkC19(c *Ctx) {
 		// classify
 		var feeMint, remMint, comMint *Eff
 		for i := range mints {
-			l := p.Leaves(mints[i].Bank.Coins, amountOpt)
+			l := c.EL(mints[i], mints[i].Bank.Coins, amountOpt)
 			switch {
 			case l.HasField("SendToExternal.ValCommission.Amount") && !l.HasField("SendToExternal.Fee.Amount"):
 				comMint = &mints[i]
@@ -111,9 +111,9 @@ func checkC19(c *Ctx) {
 			r.Undecided("C19.clamp", fname(f), p.Pos(f.Pos()), sprintf("the three execution payouts were not all found (commission=%v reimbursement=%v remainder=%v)", comMint != nil, feeMint != nil, remMint != nil))
 			continue
 		}
-		F := loadedAlloc(feeMint.Bank.Coins)
-		L := loadedAlloc(remMint.Bank.Coins)
-		C := loadedAlloc(comMint.Bank.Coins)
+		F := loadedAlloc(outerValue(feeMint.Bank.Coins, feeMint.Chain))
+		L := loadedAlloc(outerValue(remMint.Bank.Coins, remMint.Chain))
+		C := loadedAlloc(outerValue(comMint.Bank.Coins, comMint.Chain))
 		if F == nil || L == nil || C == nil {
 			r.Undecided("C19.clamp", fname(f), p.Pos(f.Pos()), "a payout is not minted from a local coin variable")
 			continue
